@@ -2,6 +2,7 @@ import LapyVerif.Props.C01
 import LapyVerif.Bridge.Fem
 import LapyVerif.Bridge.SolverAniso
 import LapyVerif.Bridge.CurvTria
+import LapyVerif.Bridge.Dispatch
 /- axiom audit of C01: every property theorem and every bridge it rests on -/
 #print axioms LapyVerif.Props.C01.stiff_form
 #print axioms LapyVerif.Props.C01.stiff_form_symm
@@ -42,3 +43,4 @@ import LapyVerif.Bridge.CurvTria
 #print axioms LapyVerif.Bridge.census_FemTriaAniso_pcCount
 #print axioms LapyVerif.Bridge.census_FemTet_pcCount
 #print axioms LapyVerif.Bridge.census_SolverAniso_pcCount
+#print axioms LapyVerif.Bridge.dispatch_facts
